@@ -1,4 +1,5 @@
 #!/bin/bash
+export GOSYM_EVIDENCE_DIR=/tmp/gosym-evidence-scratch; mkdir -p $GOSYM_EVIDENCE_DIR
 # Runs every seeded change against the quick check of the property it breaks (and optional extra ids).
 # usage: matrix.sh [tier] > results ; writes /verif/seeded/MATRIX.txt
 tier=${1:-quick}
